@@ -913,15 +913,16 @@ def work_crash(item):
 # =====================================================================================================
 # (d) cache histories: explicit-state search in lock-step with a dictionary model of the cache
 HIST_SHAPE = (25, 4)
-HIST_LABELS = ('A', 'B', 'C', 'A2')
+HIST_LABELS = ('A', 'B', 'C', 'A2', 'P')
 HIST_OPS = [('asm', 'A', 'serial'), ('asm', 'A', 'pool'), ('asm', 'B', 'serial'), ('asm', 'C', 'serial'), ('asm', 'A2', 'serial'),
+            ('asm', 'P', 'serial'),
             ('trunc', 'empty'), ('trunc', 'header'), ('trunc', 'half'), ('trunc', 'short1'), ('del', ),
             ('ro', 'fs'), ('ro', 'dir'), ('rw', )]
 
 
 def hist_requests():
     """A: lists on the unit square; B: same test list, other trial list; C: other test list, same trial list;
-    A2: the elements with the SAME (t, x) intervals - the same reprs - on the L-shape."""
+    A2: the elements with the SAME (t, x) intervals - the same reprs - on the L-shape; P: A's elements in another list order."""
     def mk():
         N, M = HIST_SHAPE
         _, nodesU, _ = universe_of('UnitSquare', 'twin', 'test')
@@ -932,7 +933,10 @@ def hist_requests():
         A = pick_lists(shared, N, M, 0)
         Bv = pick_lists(shared, N, M, 1)
         reqs = {'A': ('UnitSquare', A[0], A[1]), 'B': ('UnitSquare', A[0], Bv[1]), 'C': ('UnitSquare', Bv[0], A[1]),
-                'A2': ('LShape', A[0], A[1])}
+                'A2': ('LShape', A[0], A[1]),
+                # P: the SAME elements as A, test list in reversed order, trial list rotated by one (rows/columns follow list
+                # position, so a cache entry shared with A would return a permuted matrix)
+                'P': ('UnitSquare', list(reversed(A[0])), list(A[1][1:]) + list(A[1][:1]))}
         for k in (0, 1):
             if str(elems_of(nodesU, A[k])) != str(elems_of(nodesL, A[k])):
                 raise HarnessError('element reprs differ between the twin meshes')
